@@ -33,6 +33,11 @@ package main
 //	badload <m>             mt.SetTree(m, copy of mt.GetTree()) on the SAME populated object with a wrong leaf
 //	                        count: must be rejected and must change nothing       -> err | ok
 //	reload                  mt.SetTree(n, copy of mt.GetTree()) on the SAME object (must succeed)  -> ok | err
+//	load <k>                mt.SetTree(n_k, copy of e_k) on the SAME object: its content is now that of export k -> ok <root> | err
+//	loadbad <k> <m>         mt.SetTree(m, copy of e_k) with m != n_k on the SAME object: rejected, nothing changes -> err | ok
+//	find <hex|->            GetLeafIndex, GetPath and VerifyPath for an arbitrary hash string on the object as it is
+//	                        now: every answer is that of a fresh object built from the current content
+//	                                                                          -> ok <index|-1> <leafIndex> <nodes|-> <verdict>
 //	export                  e_k := GetTree() (the slice itself, NOT copied), with the root, leaves and paths of
 //	                        the tree at this moment recorded                  -> ok <k>
 //	recompute <n> <tag>     ComputeTree of n fresh leaves on the SAME MerkleTree object  -> as compute
@@ -243,6 +248,8 @@ func runC19(ops []string) CaseResult {
 	var exports []*c19Export
 	firstN := 0
 	leavesSet := false
+	var fresh *util.MerkleTree
+	freshKey := ""
 	fail := func(i int, f string, a ...interface{}) {
 		if len(res.Fails) < 20 {
 			res.Fails = append(res.Fails, fmt.Sprintf("op %d (%s): ", i, ops[i])+fmt.Sprintf(f, a...))
@@ -335,6 +342,12 @@ func runC19(ops []string) CaseResult {
 			bad = mt == nil || len(f) != 2 || e != nil || atoi(f[1]) == len(leaves) || len(leaves) == 0
 		case "reload":
 			bad = mt == nil || len(f) != 1 || len(leaves) == 0
+		case "load":
+			bad = mt == nil || len(f) != 2 || atoi(f[1]) < 0 || atoi(f[1]) >= len(exports) || exports[atoi(f[1])].n == 0
+		case "loadbad":
+			bad = mt == nil || len(f) != 3 || atoi(f[1]) < 0 || atoi(f[1]) >= len(exports) || exports[atoi(f[1])].n == atoi(f[2]) || len(leaves) == 0
+		case "find":
+			bad = mt == nil || len(f) != 2
 		case "export":
 			bad = mt == nil
 		case "recompute":
@@ -459,6 +472,71 @@ func runC19(ops []string) CaseResult {
 				}
 				tags["reload-same-object"] = true
 				return "ok"
+			case "load":
+				e := exports[atoi(f[1])]
+				if err := mt.SetTree(e.n, append([]string(nil), e.arr...)); err != nil {
+					fail(i, "SetTree(%d) rejected export %s: %v", e.n, f[1], err)
+					return "err"
+				}
+				leaves, lv, root = append([]string(nil), e.leaves...), e.lv, e.root
+				tags["load-other-content-into-used-object"] = true
+				if mt.GetRoot() != root {
+					fail(i, "after loading export %s the root is %.8s, want %.8s", f[1], mt.GetRoot(), root)
+				}
+				return "ok " + mt.GetRoot()
+			case "loadbad":
+				e := exports[atoi(f[1])]
+				before := append([]string(nil), mt.GetTree()...)
+				if err := mt.SetTree(atoi(f[2]), append([]string(nil), e.arr...)); err == nil {
+					fail(i, "SetTree(%s) accepted the array of a tree of %d leaves", f[2], e.n)
+					return "ok"
+				}
+				if !c19EqStrs(mt.GetTree(), before) || mt.GetRoot() != root {
+					fail(i, "the rejected SetTree(%s) changed the tree array or the root", f[2])
+				}
+				return "err"
+			case "find":
+				h := string(unhx(f[1]))
+				want := -1
+				for k, l := range leaves {
+					if l == h {
+						want = k
+						break
+					}
+				}
+				gi := mt.GetLeafIndex(c19Hashable(h))
+				p := mt.GetPath(c19Hashable(h))
+				v := mt.VerifyPath(c19Hashable(h), p)
+				if gi != want {
+					fail(i, "GetLeafIndex(%q) = %d on the object as it is now (%d leaves), a fresh object built from the same content gives %d", c19Abbrev(h), gi, len(leaves), want)
+				}
+				if want >= 0 {
+					tags["find-present"] = true
+					checkPath(i, p, want)
+					if !v {
+						fail(i, "GetPath(%q) of a current leaf (index %d) does not verify", c19Abbrev(h), want)
+					}
+				} else {
+					tags["find-absent"] = true
+					if len(p.Nodes) != 0 || p.LeafIndex != 0 || v {
+						fail(i, "GetPath(%q): the hash is not a leaf of the current content, but a path of %d nodes (leaf index %d, verifies=%v) is returned", c19Abbrev(h), len(p.Nodes), p.LeafIndex, v)
+					}
+				}
+				if len(leaves) > 0 {
+					// the fresh object is rebuilt only when the content has changed since the last find
+					if key := strings.Join(leaves, ","); fresh == nil || key != freshKey {
+						fresh, freshKey = &util.MerkleTree{}, key
+						hs := make([]util.Hashable, len(leaves))
+						for k, l := range leaves {
+							hs[k] = c19Hashable(l)
+						}
+						fresh.ComputeTree(hs)
+					}
+					if fi := fresh.GetLeafIndex(c19Hashable(h)); fi != gi {
+						fail(i, "GetLeafIndex(%q) = %d, a fresh object with the same content answers %d", c19Abbrev(h), gi, fi)
+					}
+				}
+				return fmt.Sprintf("ok %d %d %s %v", gi, p.LeafIndex, c19Nodes(p.Nodes), v)
 			case "export":
 				t := mt.GetTree()
 				exports = append(exports, &c19Export{arr: t, n: len(leaves), leaves: append([]string(nil), leaves...), lv: lv, root: root,
@@ -668,17 +746,27 @@ func runC19(ops []string) CaseResult {
 // c19Case: the op lines for one tree of n leaves. full = every index individually, offers for every index.
 func c19Case(r *rand.Rand, n int, tag string, dups int, tier string) []string {
 	ops := []string{fmt.Sprintf("leaves %d %s", n, tag)}
+	var dupPairs [][2]int
 	for d := 0; d < dups && n >= 2; d++ {
 		i, j := r.Intn(n), r.Intn(n)
 		if i != j {
 			ops = append(ops, fmt.Sprintf("dup %d %d", i, j))
+			dupPairs = append(dupPairs, [2]int{i, j})
 		}
 	}
-	return c19Body(r, ops, nil, n, tag, tier)
+	orig := make([]string, n)
+	for i := range orig {
+		orig[i] = c19Leaf(tag, i)
+	}
+	for _, d := range dupPairs {
+		orig[d[0]] = orig[d[1]]
+	}
+	return c19Body(r, ops, nil, orig, tag, tier)
 }
 
 // c19Body: everything done with a tree once the leaf ops (head) are given; extra ops go right after the first checks
-func c19Body(r *rand.Rand, head, extra []string, n int, tag string, tier string) []string {
+func c19Body(r *rand.Rand, head, extra []string, orig []string, tag string, tier string) []string {
+	n := len(orig)
 	ops := append([]string(nil), head...)
 	ops = append(ops, "compute")
 	if n <= 12 {
@@ -804,12 +892,42 @@ func c19Body(r *rand.Rand, head, extra []string, n int, tag string, tier string)
 	ops = append(ops, "export", fmt.Sprintf("recompute %d %sb", n2, tag), "checkexport 0", "allpaths",
 		fmt.Sprintf("pathidx %d", n2-1), "export",
 		fmt.Sprintf("loadcompute 0 %d %sc", sizes(), tag), "checkexport 0")
+	curTag, curN := tag+"b", n2
 	if n <= 300 {
 		// (large trees: one round is enough; every checkexport re-verifies all paths)
+		n3 := sizes()
 		ops = append(ops, "checkexport 1",
 			fmt.Sprintf("loadcompute 1 %d %sd", n2, tag), "checkexport 1",
-			fmt.Sprintf("recompute %d %se", sizes(), tag), "checkexport 1", "checkexport 0", "allpaths")
+			fmt.Sprintf("recompute %d %se", n3, tag), "checkexport 1", "checkexport 0", "allpaths")
+		curTag, curN = tag+"e", n3
 	}
+	// ONE object through computes, lookups, loads of other contents (same and other sizes, accepted and rejected) and
+	// computes again: after each step every lookup answers for the CURRENT content only (nothing cached from before).
+	// export 0 = the original leaves (n), export 1 = <tag>b (n2); the object now holds <curTag> (curN leaves)
+	find := func(l string) { ops = append(ops, "find "+c19Tok(l)) }
+	lb := func(i int) string { return c19Leaf(tag+"b", i) }
+	find(c19Leaf(curTag, curN-1)) // a lookup on the current content first: whatever is cached is cached now
+	find(orig[0])                 // a leaf of an earlier content: absent
+	ops = append(ops, "load 0")
+	find(orig[n-1])
+	find(orig[r.Intn(n)])
+	find(c19Leaf(curTag, 0)) // a leaf of the content just replaced: must be absent now
+	find(lb(n2 - 1))
+	ops = append(ops, fmt.Sprintf("pathleaf %d", r.Intn(n)), "allpaths", "root")
+	ops = append(ops, fmt.Sprintf("loadbad 1 %d", n2+1), fmt.Sprintf("loadbad 0 %d", 2*n+1))
+	find(orig[0])
+	find(lb(0)) // the rejected load must not make export 1's leaves appear
+	ops = append(ops, "load 1")
+	find(lb(n2 - 1))
+	find(lb(r.Intn(n2)))
+	find(orig[n-1]) // absent again (unless the two contents share it)
+	ops = append(ops, "allpaths", fmt.Sprintf("recompute %d %sf", n, tag))
+	find(c19Leaf(tag+"f", n-1))
+	find(lb(0))
+	find(orig[0])
+	ops = append(ops, "load 0")
+	find(orig[0])
+	find(c19Leaf(tag+"f", 0))
 	return ops
 }
 
@@ -928,7 +1046,7 @@ func c19ShapedCase(r *rand.Rand, shape string, n int, tier string) []string {
 			extra = append(extra, fmt.Sprintf("offerall %d", i))
 		}
 	}
-	return c19Body(r, head, extra, n, tag, tier)
+	return c19Body(r, head, extra, leaves, tag, tier)
 }
 
 // c19Size: array size for n leaves (used only to pick indices around the end of the array)
